@@ -94,9 +94,9 @@ def Kind.res : Kind → Res
   | .hrA2 => .httpRoute | .hrB1 => .httpRoute | .hrV1 => .httpRoute
   | .tcpr => .tcpRoute
 
-/-- `hdlr.full` -/
+/-- `hdlr.full` (IngressClass since 546cb55: a class change can make untracked ingresses valid) -/
 def Kind.full : Kind → Bool
-  | .gwA2 | .gwclsA2 | .hrA2 | .gwB1 | .gwclsB1 | .hrB1 | .gwV1 | .gwclsV1 | .hrV1 | .tcpr => true
+  | .ingcls | .gwA2 | .gwclsA2 | .hrA2 | .gwB1 | .gwclsB1 | .hrB1 | .gwV1 | .gwclsV1 | .hrV1 | .tcpr => true
   | _ => false
 
 def Kind.fam : Kind → Option Fam
